@@ -85,6 +85,9 @@ def setManager (q : GenericSampler) (slots : Slots) : GenericSampler := { q with
 def setCutoff (q : GenericSampler) (c : Nat) : GenericSampler :=
   { q with cutoff := c, slots := growSlots q.slots c }
 
+/-- `set_do_heatbath` (the conversion itself leaves the option off, whatever the Ising sampler had) -/
+def setDoHeatbath (q : GenericSampler) (b : Bool) : GenericSampler := { q with doHeatbath := b }
+
 /-- `should_do_cluster_update` -/
 def shouldDoClusterUpdate (q : GenericSampler) : Bool := !q.breaksIsingSymmetry && q.hasClusterEdges
 
